@@ -223,6 +223,12 @@ Next ==
                      \cup (IF ~C08_CancelCounter(L) THEN {<<"inv", "C08_CancelCounter">>} ELSE {})
                      \cup (IF h.err = "" /\ ~HasExc(r)
                            THEN FrontierViol(IF r.ty = E_SCHED_FIN THEN [L EXCEPT !.now = S.now] ELSE QRemove(Sx, e), r) ELSE {})
+                     \* C07: a conditional that completes releases exactly one child - its own completion never cancels ALL of them
+                     \cup (IF r.ty = E_FINISHED /\ r.t <= Len(Sx.tk) /\ Sx.tk[r.t].cond /\ h.err = "" /\ ~HasExc(r)
+                              /\ L.ts[r.t].st = COMPLETED /\ Children(Sx, r.t) # <<>>
+                              /\ (\A i \in 1..Len(Children(Sx, r.t)) : L.ts[Children(Sx, r.t)[i]].st = CANCELLED)
+                              /\ (\E i \in 1..Len(Children(Sx, r.t)) : Sx.ts[Children(Sx, r.t)[i]].st # CANCELLED)
+                           THEN {<<"inv", "C07_CompletedConditionalReleasesNone">>} ELSE {})
                      \cup DrawViol(Sx, r)
                      \cup InvViol(World, L) \cup EdgeViol(Sx, L)
             IN  /\ S' = L
